@@ -36,6 +36,11 @@ def kinds(i):
         'ptr_tainted': dict(sig='int*', cxx='tainted<int*, vsbx>& %s' % v, decl='  struct %s %s; uintptr_t in_%s; %s.data = (int *)in_%s;\n' % (TP, v, v, v, v), gt='unsigned int',
                             expect='((uintptr_t)%s->data == 0 ? MI(0) : MI((uintptr_t)%s->data) - MI(V_BASE[$this->base0.slot]))' % (P, P),
                             fits='1', pre='((uintptr_t)%s->data == 0 || V_IN($this->base0.slot, (uintptr_t)%s->data))' % (P, P)),
+        # a tainted sandbox-function address as argument: must reach the callee in the backend's *function-pointer* representation
+        'fnptr_tainted': dict(sig='int(*)(long)', cxx='tainted<int(*)(long), vsbx>& %s' % v,
+                              decl='  struct %s %s; uintptr_t in_%s; %s.data = (void *)in_%s;\n' % (cs('rlbox::tainted<int (*)(long), rlbox::vsbx>'), v, v, v, v), gt='unsigned int',
+                              expect='((uintptr_t)%s->data == 0 ? MI(0) : MI(g_fn_repr))' % P, fits='1',
+                              post='((uintptr_t)%s->data != 0 ==> (g_fn_swizzles == 1 && g_fn_swizzled == (uintptr_t)%s->data))' % (P, P)),
         'nullptr': dict(sig='int*', cxx='std::nullptr_t %s' % v, decl='  void *%s = (void *)0;\n' % v, gt='unsigned int', expect='MI(0)', fits='1'),
     }
 
@@ -61,7 +66,7 @@ def invoke_inst(pkinds, rkind, tier):
     ks = [kinds(i)[k] for i, k in enumerate(pkinds)]
     ret = RETS[rkind]
     fsig = '%s(%s)' % (ret['sig'], ', '.join(k['sig'] for k in ks))
-    ghost = PRE_GHOST + ' unsigned g_calls; unsigned long g_fn; long g_guest_ret; ' + ' '.join('long g_arg%d;' % i for i in range(n)) + '\n'
+    ghost = PRE_GHOST + ' unsigned g_calls; unsigned long g_fn; long g_guest_ret; unsigned g_fn_swizzles; unsigned long g_fn_swizzled; unsigned int g_fn_repr; ' + ' '.join('long g_arg%d;' % i for i in range(n)) + '\n'
     # backend stub: records the call
     stub_ens = ['g_calls == __CPROVER_old(g_calls) + 1', 'g_fn == (unsigned long)$0'] + ['MI(g_arg%d) == MI(*$%d)' % (i, i + 1) for i in range(n)]
     if ret['gt']:
@@ -79,8 +84,12 @@ def invoke_inst(pkinds, rkind, tier):
         cl.append(('arg%d_in_guest_abi' % i, '__CPROVER_ensures(MI((%s)g_arg%d) == %s)' % (k['gt'], i, k['expect'])))
     if ret['gt']:
         cl.append(('result_converted_back', '__CPROVER_ensures(%s)' % ret['res']))
-    cl.append(('frame', '__CPROVER_assigns(g_calls, g_fn%s)' % ''.join(', g_arg%d' % i for i in range(n))))
+    for i, k in enumerate(ks):
+        if 'post' in k:
+            cl.append(('arg%d_swizzled_as_function_pointer' % i, '__CPROVER_ensures(%s)' % k['post']))
+    cl.append(('frame', '__CPROVER_assigns(g_calls, g_fn, g_fn_swizzles, g_fn_swizzled%s)' % ''.join(', g_arg%d' % i for i in range(n))))
     h = REGIONS + SB_DECL + ''.join(k['decl'] for k in ks)
+    h += '  g_fn_swizzles = 0; unsigned int in_fn_repr; g_fn_repr = in_fn_repr;\n'
     h += '  g_calls = 0; long in_guest_ret; g_guest_ret = in_guest_ret; uintptr_t in_fn;\n'
     args = ''.join(', &a%d' % i for i in range(n))
     if ret['gt']:
@@ -90,7 +99,13 @@ def invoke_inst(pkinds, rkind, tier):
     params = 'rlbox_sandbox<vsbx>& s, void* fp' + ''.join(', ' + k['cxx'] for k in ks)
     call = 's.INTERNAL_invoke_with_func_ptr<%s>("f", fp%s);' % (fsig, ''.join(', a%d' % i for i in range(n)))
     name = 'c11_invoke_%s__%s' % (rkind, '_'.join(pkinds) if pkinds else 'noargs')
-    leaves = ['dynamic_check', stub, 'vsbx.impl_get_sandboxed_pointer', 'vsbx.impl_get_unsandboxed_pointer']
+    # A_backend, function-pointer form: impl_get_sandboxed_pointer<T> with T a function-pointer type yields the backend's
+    # function-pointer representation (an arbitrary value g_fn_repr here), not the data-pointer swizzle
+    fn_swz = ('vsbx.impl_get_sandboxed_pointer<function pointer>(A_backend)',
+              lambda fn, rec: fn.get('name') == 'impl_get_sandboxed_pointer' and 'IPF' in fn.get('mangledName', ''),
+              '__CPROVER_requires($0 != 0)\n__CPROVER_ensures($ret == g_fn_repr && g_fn_swizzles == __CPROVER_old(g_fn_swizzles) + 1 && g_fn_swizzled == (uintptr_t)$0)\n'
+              '__CPROVER_assigns(g_fn_swizzles, g_fn_swizzled)')
+    leaves = ['dynamic_check', stub, fn_swz, 'vsbx.impl_get_sandboxed_pointer', 'vsbx.impl_get_unsandboxed_pointer']
     return Inst(name, params, call, cl, h, leaves=leaves, prop=PROP, root_name='INTERNAL_invoke_with_func_ptr', tier=tier, pre=ghost,
                 note='signature %s with argument forms %s' % (fsig, pkinds), timeout=300)
 
@@ -104,7 +119,7 @@ def fnptr_inst(tier):
 
 
 def units(tier):
-    fam = [([], 'void'), (['long_plain'], 'int'), (['long_tainted', 'ptr_tainted'], 'int'), (['long_opaque'], 'long'), (['nullptr', 'int_plain'], 'ptr'),
+    fam = [([], 'void'), (['long_plain'], 'int'), (['long_tainted', 'ptr_tainted'], 'int'), (['fnptr_tainted', 'long_plain'], 'int'), (['long_opaque'], 'long'), (['nullptr', 'int_plain'], 'ptr'),
            (['ulong_tainted', 'long_plain', 'ptr_tainted'], 'void')]
     if tier != 'quick':
         fam += [(['long_plain'] * 4, 'long'), (['long_tainted', 'ptr_tainted', 'int_plain', 'ulong_tainted', 'long_opaque', 'nullptr'], 'ptr'),
